@@ -1,6 +1,7 @@
 import ErrModel.Proofs.RoundTrip
 import ErrModel.Proofs.TextEq
 import ErrModel.Proto
+import ErrModel.ProtoEnc
 /-
   C01 — Error text and cause-tree structure survive network transfer.
 
@@ -131,5 +132,22 @@ theorem C01_wire_example :
     Proto.serDet ⟨b!"t", ⟨b!"f", []⟩, [b!"a", [], b!"bc"], .none⟩ =
       [0x0a, 1, 116, 0x12, 3, 0x0a, 1, 102, 0x1a, 1, 97, 0x1a, 0, 0x1a, 2, 98, 99] := by
   simp [Proto.serDet, Proto.detFields, Proto.serMark, Proto.markFields, Proto.serLD, Proto.lenField, Proto.varint, lit]
+
+
+/-- the whole message, payloads cleared: the generated reader gives back the message the generated
+    writer was given — any nesting depth, any number of multi-cause branches, any byte strings,
+    any message type — provided every length prefix fits 64 bits (`SmallW`) -/
+theorem C01_wire_message_partial (w : Proto.W) (h : Proto.SmallW w) :
+    Proto.desW (Proto.height w) (Proto.serW w) = some w :=
+  Proto.desW_serW w (Proto.height w) (Nat.le_refl _) h
+
+/-- non-vacuity: a wrapper with a full message over a two-branch multi-cause leaf -/
+def exW : Proto.W :=
+  .wrap (b!"m") ⟨b!"t", ⟨b!"f", b!"x"⟩, [b!"r"], .none⟩ 1
+    (.leaf [] ⟨[], ⟨b!"g", []⟩, [], .none⟩ [.leaf (b!"a") ⟨b!"u", ⟨b!"u", []⟩, [], .none⟩ [], .leaf (b!"b") ⟨b!"u", ⟨b!"u", []⟩, [], .none⟩ []])
+theorem exW_small : Proto.SmallW exW := by
+  simp [exW, Proto.SmallW, Proto.SmallWs, Proto.DetSmall, Proto.serW, Proto.serWs, Proto.serItems, Proto.Item.ser,
+    Proto.leafItems, Proto.wrapItems, Proto.optLd, Proto.optVi, Proto.serDet, Proto.detFields, Proto.serMark,
+    Proto.markFields, Proto.serLD, Proto.lenField, Proto.varint, lit]
 
 end ErrModel
